@@ -190,6 +190,37 @@ Example C08_compare_ex : Comparator_m 4 9 12 = (0, 0, 1) /\ ComparatorSU_m mid_m
   EqualConstant_m 3 1 5 5 = 1 /\ NotEqualConstant_m 1 1 0 0 = 0 /\ Swap_m 3 3 1 6 1 = (6, 1) /\ fits 4 9 /\ fits 4 12.
 Proof. vm_compute. repeat split; try reflexivity; discriminate. Qed.
 
+(* ------------------------------------------------------------------ inputs of DIFFERENT widths on one block.
+   And / Or / Mux / Mux2 / SelectDefault / Swap / Min / Max only use r's width for their internal wires: the theorems above hold for inputs of
+   any widths (no `fits` guard on them, or only on the operands of the comparator).  The blocks below size internal wires from each input:
+   they are modelled over (width, value) items; the uniform-width models are instances. *)
+(* Nor / Nor2: any width wm of the Mid wire at least r's needs no guard on the inputs; C08_nor / C08_nor2 cover a Mid that holds every input *)
+Theorem C08_nor_any_mid : forall wm wr ins, 0 <= wr <= wm -> ins <> [] -> Nor_m wm wr ins = nor_spec wr ins.
+Proof. exact Nor_mid_ge_r. Qed.
+Theorem C08_nor2_any_mid : forall wm wr a b, 0 <= wr <= wm -> Nor2_m wm wr a b = nor2_spec wr a b.
+Proof. exact Nor2_mid_ge_r. Qed.
+Theorem C08_xor_mixed : forall w ins, 0 <= w -> (2 <= length ins)%nat -> Forall item_ok ins -> XorW_m mid_max w ins = xor_spec w (map snd ins).
+Proof. exact XorW_correct_max. Qed.
+Theorem C08_xor_uniform_is_mixed : forall mid wi w ins, Xor_m mid wi w ins = XorW_m mid w (map (pair wi) ins).
+Proof. exact Xor_as_W. Qed.
+Theorem C08_onehot_mux_mixed : forall wr sels ins, 0 <= wr -> sels <> [] -> length sels = length ins -> Forall item_ok ins ->
+  OneHotMuxW_m wr sels ins = onehot_mux_spec wr sels (map snd ins).
+Proof. exact OneHotMuxW_correct. Qed.
+Theorem C08_onehot_mux_uniform_is_mixed : forall wi wr sels ins, OneHotMux_m wi wr sels ins = OneHotMuxW_m wr sels (map (pair wi) ins).
+Proof. exact OneHotMux_as_W. Qed.
+Theorem C08_onehot_demux_mixed : forall wa wos a sels, 0 <= wa -> fits wa a -> Forall (fun w => 0 <= w) wos ->
+  OneHotDemuxW_m wa wos a sels = map (fun p => if snd p =? 0 then 0 else a mod 2 ^ fst p) (combine wos sels).
+Proof. exact OneHotDemuxW_correct. Qed.
+Theorem C08_any_equal_mixed : forall wr ins, 1 <= wr -> (2 <= length ins)%nat -> Forall item_ok1 ins ->
+  AnyEqualW_m mid_max eqw_max wr ins = any_equal_spec (map snd ins).
+Proof. exact AnyEqualW_correct. Qed.
+Theorem C08_any_equal_uniform_is_mixed : forall mid eqw w wr ins, AnyEqual_m mid eqw w wr ins = AnyEqualW_m mid eqw wr (map (pair w) ins).
+Proof. exact AnyEqual_as_W. Qed.
+Example C08_mixed_ex : XorW_m mid_max 4 [(1, 1); (3, 6); (2, 3)] = 4 /\ OneHotMuxW_m 4 [0; 1; 1] [(1, 1); (3, 5); (4, 8)] = 13 /\
+  OneHotDemuxW_m 3 [1; 4] 5 [1; 1] = [1; 5] /\ AnyEqualW_m mid_max eqw_max 1 [(1, 1); (3, 5); (4, 1)] = 1 /\ Nor_m 3 3 [1; 6] = 0 /\
+  Mux_m 2 8 1 [3; 0xE8; 7; 9] = 0xE8.
+Proof. vm_compute. repeat split; reflexivity. Qed.
+
 (* one Print Assumptions over the tuple of ALL theorems above (separate ones cost ~1 s each): any axiom used by any of them
    would be listed here. *)
 Definition C08_all_theorems :=
@@ -204,7 +235,9 @@ Definition C08_all_theorems :=
    C08_equal_constant, C08_equal_constant_general, C08_not_equal_constant, C08_equal, C08_equal_any_policy,
    C08_any_equal, C08_any_equal_any_policy, C08_any_equal_meaning, C08_comparator, C08_comparator_signed_unsigned,
    C08_comparator_signed_unsigned_any_policy, C08_max2, C08_min2, C08_signed_max2, C08_signed_min2,
-   C08_signed_max_min_meaning, C08_signed_max_min_any_policy, C08_swap).
+   C08_signed_max_min_meaning, C08_signed_max_min_any_policy, C08_swap, C08_nor_any_mid, C08_nor2_any_mid,
+   C08_xor_mixed, C08_xor_uniform_is_mixed, C08_onehot_mux_mixed, C08_onehot_mux_uniform_is_mixed, C08_onehot_demux_mixed,
+   C08_any_equal_mixed, C08_any_equal_uniform_is_mixed).
 Print Assumptions C08_all_theorems.
 
 (* names used by other developments (Proofs/C01/ComposePrim.v) for the two headline theorems *)
